@@ -20,10 +20,12 @@ static inline bool fromHex(const std::string &h, std::string &out) {
     for (size_t i = 0; i < h.size(); i += 2) { int a = v(h[i]), b = v(h[i + 1]); if (a < 0 || b < 0) return false; out += (char)(a * 16 + b); }
     return true;
 }
+// reader threads (readers_tsan.cpp) write to distinct files: a per-thread suffix
+static thread_local int g_scratchTid = 0;
 static inline std::string scratchPath() {
     const char *d = getenv("BGH_TMP");
     std::string dir = d ? d : "/tmp";
-    return dir + "/bgh-" + std::to_string((long)getpid()) + ".dat";
+    return dir + "/bgh-" + std::to_string((long)getpid()) + "-" + std::to_string(g_scratchTid) + ".dat";
 }
 static inline std::string slurp(const std::string &path) {
     std::ifstream f(path, std::ios::binary);
